@@ -257,10 +257,24 @@ def rule_WB(ctx):
             ends = [x for x in ast.walk(lp) if isinstance(x, ast.Assign) and isinstance(x.value, ast.BinOp) and isinstance(x.value.op, ast.Sub)
                     and ast.unparse(x.value.left) == v and ast.unparse(x.value.right) == stride]
             if starts and not ends:
-                if isinstance(limit, ast.BinOp) and isinstance(limit.op, ast.Sub) and ast.unparse(limit.right) == stride:
+                if isinstance(limit, ast.BinOp) and isinstance(limit.op, ast.Sub) and ast.unparse(limit.right) == stride and isinstance(limit.left, ast.Name):
                     limit = limit.left          # last start + stride <= this
                 else:
-                    limit = None
+                    # the same as a sum, however it is ordered: (stop - 1) + stride must be one bounded name (minus a constant)
+                    from .ingest import _lin
+                    try:
+                        form = dict(_lin(stop))
+                        for k_, v_ in _lin(it.args[2] if len(it.args) > 2 else ast.Constant(value=1)).items():
+                            form[k_] = form.get(k_, 0) + v_
+                        form[1] = form.get(1, 0) - 1
+                        form = {k_: v_ for k_, v_ in form.items() if v_}
+                        names_ = [k_ for k_ in form if k_ != 1]
+                        if len(names_) == 1 and form[names_[0]] == 1 and form.get(1, 0) <= 0 and names_[0].isidentifier():
+                            limit = ast.Name(id=names_[0], ctx=ast.Load())
+                        else:
+                            limit = None
+                    except Exception:
+                        limit = None
             if limit is not None and bounded(limit):
                 r.ok(f'{f.key}:{norm(it)}', {'instance': f.key, 'loop': norm(it), 'limit': norm(limit), 'bounded_by': e_var})
             else:
